@@ -1439,6 +1439,12 @@ class PSwitch(_Component):
         v = abs(vi[0]) - self._params["rs"] * io
         if phase_conf and phase not in phase_conf:
             return 0.0, STATE_OFF
+        if not (v > 0.0):
+            raise ValueError(
+                "Unstable system: PSwitch component '{}' has zero output voltage".format(
+                    self._params["name"]
+                )
+            )
         if vi[0] >= 0.0:
             return v, STATE_DEFAULT
         return -v, STATE_DEFAULT
